@@ -224,6 +224,16 @@ def run_real(out: Outcome, rng, with_collective):
                                  expected=repr(raw)[:120], observed=repr(v1)[:120])
                     if v2 is not v1:
                         out.count('real-second-call-not-a-hit')
+            # further public analysis calls (cached or not today): none of them may pin its object
+            for fn in (lambda: tr.jumps(), lambda: tr.jumps(minimal_residence=1), lambda: tr.occupancy(), lambda: tr.atom_locations(),
+                       lambda: tr.occupancy_by_site_type(), lambda: j.to_graph(), lambda: j.rates(2), lambda: j.split(2),
+                       lambda: m.tracer_diffusivity(dimensions=3), lambda: m.tracer_conductivity(z_ion=1, dimensions=3),
+                       lambda: m.haven_ratio(dimensions=3), lambda: tr.split(2), lambda: tr.trajectory.metrics().speed()):
+                try:
+                    _r = fn()
+                    del _r
+                except Exception:  # noqa: BLE001
+                    pass
             if with_collective:
                 try:
                     c1 = j.collective()
